@@ -469,7 +469,7 @@ theorem at_toArray (pre l post : List Nat) : At (pre ++ l ++ post).toArray pre.l
 /-- C06: for every well-formed RFC 8259 document — any nesting, any legal whitespace, duplicate
 keys — surrounded by optional whitespace, the parser returns exactly the denoted value. -/
 theorem parse_print (d : Deps) (hd : DepsSafe d) (doc : JDoc) (hwf : WF d doc) (wsL wsR : Ws)
-    (hL : AllWs wsL) (hR : AllWs wsR) :
+    (hL : AllWs wsL) (hR : AllWs wsR) (hsz0 : (wsL ++ doc.print ++ wsR).length < 2 ^ 32) :
     parse d (wsL ++ doc.print ++ wsR).toArray = .ok doc.denote := by
   obtain ⟨x, xs, hx, hxd⟩ := print_head d doc hwf
   have hsz : (wsL ++ doc.print ++ wsR).toArray.size = wsL.length + doc.print.length + wsR.length := by simp; omega
@@ -485,7 +485,7 @@ theorem parse_print (d : Deps) (hd : DepsSafe d) (doc : JDoc) (hwf : WF d doc) (
   unfold parse
   have hne : ¬ (wsL ++ doc.print ++ wsR).toArray.size = 0 := by rw [hsz, hx]; simp
   simp only [hne, ↓reduceIte, ht]
-  obtain ⟨v, o', hv, _, _, _⟩ := (all_good d hd _ (fuelFor (wsL ++ doc.print ++ wsR).toArray)).1 (0 + wsL.length)
+  obtain ⟨v, o', hv, _, _, _⟩ := (all_good d hd _ (by rw [List.size_toArray]; exact hsz0) (fuelFor (wsL ++ doc.print ++ wsR).toArray)).1 (0 + wsL.length)
     (by rw [hsz]; omega) (by unfold needV fuelFor; omega)
   have := parseValue_print d doc _ _ _ _ hwf hatd hfollow hv
   rw [hv]
